@@ -1,17 +1,26 @@
 ------------------------------ MODULE Gen_Pool ------------------------------
 (* Behaviour generator for C08 / ObjectPool: alloc/free scripts of the implementation-shaped model for     *)
-(* every retention limit in Keeps.  Objects are named by their allocation index j, so a script does not     *)
-(* depend on which addresses the real allocator returns.                                                    *)
+(* every retention limit in Keeps.  Objects are named by their allocation index j (the j-th constructor     *)
+(* that started), so a script does not depend on which addresses the real allocator returns.                 *)
+(* Re-entrant calls are the flat bracketed sequences  cbeg(v) ... cend(th)  and  dbeg(j) ... dend : the      *)
+(* driver makes the calls listed between the brackets from INSIDE the constructor / destructor of the real   *)
+(* element type (and lets the constructor throw if th).  An empty bracket pair is not generated (it is the   *)
+(* atomic palloc / pfree).                                                                                    *)
 EXTENDS PoolImpl, Json
 CONSTANTS Depth, Types
 VARIABLES hist, idx       \* idx: address -> allocation index of the object living there
 gvars == <<vars, hist, idx>>
 H(r) == hist' = Append(hist, r)
+LastIs(e) == hist # <<>> /\ hist[Len(hist)].e = e
 GInit == Init /\ hist = <<>> /\ idx = [a \in Addrs |-> 0]
 GNew == \E k \in Keeps, ty \in Types : New(k) /\ H([e |-> "pnew", keep |-> (IF k = 99 THEN 0 - 1 ELSE k), ty |-> ty]) /\ UNCHANGED idx
 GAlloc == \E v \in Vals : Alloc(v) /\ H([e |-> "palloc", v |-> v]) /\ idx' = [idx EXCEPT ![lastC'] = nctor']
 GFree == \E a \in DOMAIN inUse : Free(a) /\ H([e |-> "pfree", j |-> idx[a]]) /\ UNCHANGED idx
-GNext == GNew \/ GAlloc \/ GFree
+GCBeg == \E v \in Vals : AllocBegin(v) /\ H([e |-> "cbeg", v |-> v]) /\ idx' = [idx EXCEPT ![lastC'] = nctor']
+GCEnd == \E th \in Throws : (th \/ ~LastIs("cbeg")) /\ AllocEnd(th) /\ H([e |-> "cend", th |-> th]) /\ UNCHANGED idx
+GDBeg == \E a \in DOMAIN inUse : FreeBegin(a) /\ H([e |-> "dbeg", j |-> idx[a]]) /\ UNCHANGED idx
+GDEnd == ~LastIs("dbeg") /\ FreeEnd /\ H([e |-> "dend"]) /\ UNCHANGED idx
+GNext == GNew \/ GAlloc \/ GFree \/ GCBeg \/ GCEnd \/ GDBeg \/ GDEnd
 GSpec == GInit /\ [][GNext]_gvars
 Emit == IF Len(hist) >= Depth THEN PrintT("BEH " \o ToJson(hist)) /\ FALSE ELSE TRUE
 \* -simulate: one script per random trace (the run is cut by -depth just after Depth operations)
